@@ -341,7 +341,8 @@ Definition scheduler_call (f : features) (fixed : list fixed_fn) (is_lower is_up
           let widths1 := fold_left (fun m nw => upd m (fst nw) (snd nw)) (bank_wires (t_banks t)) (s_wires s) in
           let needed := fold_left (fun l x => add_set x l) (all_in_names (t_banks t)) (s_needed s) in
           let widths := fold_left (fun m nv => upd m (fst nv) (wd (snd nv))) consts widths1 in
-          let known := all_out_names (t_banks t) ++ map fst consts in
+          (* register outputs, the stall_X / bubble_X the program leaves unassigned, constants *)
+          let known := all_out_names (t_banks t) ++ t_defaulted t ++ map fst consts in
           match t_errs t ++ unset_errors s t needed with
           | _ :: _ => None
           | [] => Some (widths, consts, s_assigns s, known, s_decls s,
@@ -374,9 +375,22 @@ Definition bank_signal_shaped (n : string) : bool :=
   | String _ r => match drop_cont_bytes r with String c _ => Ascii.eqb c "_" | EmptyString => false end
   end.
 
-(* no wire of the component table is named like a register-bank signal (true of gen_fixed) *)
+(* does s start with p ? *)
+Fixpoint starts_with (p s : string) : bool :=
+  match p with
+  | EmptyString => true
+  | String a p' => match s with
+                   | EmptyString => false
+                   | String b s' => Ascii.eqb a b && starts_with p' s'
+                   end
+  end.
+
+(* no wire of the component table is named like a signal a register bank introduces: neither
+   <char>_<register> nor the control signals stall_<char> / bubble_<char> (which are known values
+   when the program leaves them unassigned) - true of gen_fixed *)
 Definition table_names_plain (fixed : list fixed_fn) : Prop :=
-  forall n, In n (fixed_all_names fixed) -> bank_signal_shaped n = false.
+  forall n, In n (fixed_all_names fixed) ->
+    bank_signal_shaped n = false /\ starts_with "stall_" n = false /\ starts_with "bubble_" n = false.
 
 (* the panics of preprocess_fixed are unreachable *)
 Definition stmt_preprocess_fixed_guards : Prop :=
